@@ -665,6 +665,7 @@ static bool model_step_inner(Model &m, Op &op) {
                 acc_elems(v, a, a.elems);
                 long long nbytes = (long long)a.elems.size() * nc_type_size(v.type);
                 if (kind == K_BPUT && rk.abuf_size - rk.abuf_used < nbytes) rc = NC_EINSUFFBUF;
+                a.tail_hazard = false; if (kind == K_BPUT && rc == NC_NOERR) { long long t = 0; for (auto &e : rk.abuf_table) t += e.first; if (rk.abuf_size - t < nbytes) a.tail_hazard = true; }
                 if (f.bb && rc == NC_EINSUFFBUF) return bbskip();
                 if (f.bb && !is_read && (a.form == F_VARD || bb_conflict(f, v, a.elems, r, true))) return bbskip();
                 if (rc == NC_NOERR && a.elems.empty()) { /* a zero-length request is not queued: the id returned is NC_REQ_NULL */ }
